@@ -105,6 +105,7 @@ def check(ctx):
     _detector_alignment(rep, model)
     _det_axes(rep, model)
     _surface_normal(rep, model)
+    _from_to(rep, model)
     _composition(rep, model)
     _forwarding(rep, model)
     _coverage(rep, model)
@@ -1224,6 +1225,309 @@ def _surface_normal(rep, model):
         except PyRaise as e:
             rep.violation('R8', tag, 'raises %s' % e.name, DET, fn.lineno)
     rep.floor('R8', 'surface normal evaluations', n, 4)
+    # R8b: the same through the concrete flat detector classes, whichever
+    # method the class resolves `surface_normal` / `surface_deriv` to
+    # (inherited or overridden), constructed by their own __init__ from
+    # axes that are neither perpendicular nor normalised
+    class P(object):
+        isinstance_names = ('RectPartition',)
+
+        def __init__(self, ndim):
+            self.ndim = ndim
+
+    class H2(H):
+        def __init__(self):
+            pass
+
+        def on_getattr(self, interp, obj, name):
+            if isinstance(obj, P):
+                if name == 'ndim':
+                    return obj.ndim
+                if name == 'set':
+                    return Rec('set')
+            return NAHooks.on_getattr(self, interp, obj, name)
+
+        def on_decide(self, interp, cond, node):
+            # constants with radicals (norms of the rational axes)
+            if cond.rat is not None:
+                try:
+                    v = PA.num_eval(cond.rat, {})
+                except (KeyError, Undecided):
+                    return NotImplemented
+                k = cond.key.split(':')[0]
+                if abs(v) > 1e-9:
+                    return {'eq0': False, 'Lt': v < 0, 'LtE': v < 0,
+                            'Gt': v > 0, 'GtE': v > 0}.get(k, NotImplemented)
+            return NotImplemented
+    from fractions import Fraction as Fr
+    C = lambda *v: [Rat.const(Fr(x)) for x in v]
+    nb = 0
+    for cname, ndim, axes_list in (
+            ('Flat2dDetector', 2, ([C(2, 0, 0), C(3, 0, 4)],
+                                   [C(1, 2, 2), C(0, 3, 4)])),
+            ('Flat1dDetector', 1, (C(3, 4), C(-5, 12)))):
+        dci = model.get(cname)
+        if dci is None:
+            raise AnalysisError('anchor vanished: %s' % cname)
+        for axes in axes_list:
+            for stacked in (False, True):
+                nb += 1
+                tag = '%s.surface_normal[axes %s, %s]' % (
+                    cname, [[str(to_rat(x)) for x in a] if isinstance(
+                        a, list) else str(to_rat(a)) for a in axes],
+                    'two parameters' if stacked else 'one parameter')
+                try:
+                    I = NAInterp(model, {}, H2())
+                    det = I.instantiate(dci, [P(ndim), NA(objarr(
+                        [list(a) for a in axes] if ndim == 2
+                        else list(axes)), 'float64')],
+                        {'check_bounds': False})
+                    if ndim == 2:
+                        par = [NA(objarr(C(0, 1)), 'float64'),
+                               NA(objarr(C(0, 2)), 'float64')] \
+                            if stacked else C(0, 0)
+                    else:
+                        par = NA(objarr(C(0, 1)), 'float64') if stacked \
+                            else Rat.const(0)
+                    nrm = I.call(I.getattr_value(det, 'surface_normal'),
+                                 [par], {})
+                    der = I.call(I.getattr_value(det, 'surface_deriv'),
+                                 [par], {})
+                    sdim = ndim + 1
+                    probs = []
+                    want_shape = (2, sdim) if stacked else (sdim,)
+                    if not isinstance(nrm, NA) or nrm.a.shape != want_shape:
+                        probs.append('result %r, documented shape %r' % (
+                            nrm, want_shape))
+                    else:
+                        for s_ in (range(2) if stacked else [None]):
+                            nv = [to_rat(x) for x in (
+                                nrm.a if s_ is None else nrm.a[s_])]
+                            d = der.a if s_ is None else der.a[s_]
+                            ts = [[to_rat(x) for x in d[k]]
+                                  for k in range(2)] if ndim == 2 else \
+                                [[to_rat(x) for x in d]]
+                            dot = lambda a, b: sum(
+                                (x * y for x, y in zip(a, b)), Rat.const(0))
+                            for k, t in enumerate(ts):
+                                if not PA.equal_exact(dot(nv, t),
+                                                      Rat.const(0), WIT):
+                                    probs.append('not perpendicular to '
+                                                 'tangent %d' % k)
+                            if not PA.equal_exact(dot(nv, nv), Rat.const(1),
+                                                  WIT):
+                                probs.append('|normal|^2 = %r, not 1' % (
+                                    PA.reduce_full(dot(nv, nv)),))
+                            if ndim == 2:
+                                a, b = ts
+                                cr = [a[1] * b[2] - a[2] * b[1],
+                                      a[2] * b[0] - a[0] * b[2],
+                                      a[0] * b[1] - a[1] * b[0]]
+                                ori = dot(cr, nv)
+                            else:
+                                t = ts[0]
+                                ori = nv[0] * t[1] - nv[1] * t[0]
+                            if PA.num_eval(ori, WIT[0]) <= 0:
+                                probs.append('orientation is left-handed')
+                    if probs:
+                        rep.violation('R8b', tag, '; '.join(probs[:3]), DET,
+                                      dci.node.lineno)
+                    else:
+                        rep.holds('R8b', tag, 'unit length, perpendicular '
+                                  'to the tangents, right-handed')
+                except (Undecided, Fork) as e:
+                    rep.undecided('R8b', tag, str(e), DET, dci.node.lineno)
+                except PyRaise as e:
+                    rep.violation('R8b', tag, 'raises %s' % e.name, DET,
+                                  dci.node.lineno)
+    rep.floor('R8b', 'flat detector normal evaluations', nb, 8)
+
+
+def _from_to(rep, model):
+    """R9: `rotation_matrix_from_to(u, v)` evaluated at pairs of rational
+    vectors in every relative position (counter-clockwise, clockwise, right
+    angle either way, equal, opposite; in 3d also collinear): the result is
+    a rotation (R^T R = 1, det R = 1) that maps u / |u| to v / |v|.  Angles
+    are exact (cosine, sine) pairs: arccos of a rational cosine has the
+    non-negative sine sqrt(1 - c^2), a sign factor flips the sine."""
+    import numpy as _np
+    from fractions import Fraction as Fr
+    from ..namodel import NA, NAHooks, NAInterp, objarr
+    from .. import posalg as PA
+    from ..posalg import Signs
+    fn = model.ctx.func(UTIL, 'rotation_matrix_from_to')
+    if fn is None:
+        raise AnalysisError('anchor vanished: rotation_matrix_from_to')
+    signs = Signs(set())
+
+    class Angle(object):
+        def __init__(self, c, s, kpi=None):
+            self.c, self.s = PA.ired(to_rat(c)), PA.ired(to_rat(s))
+            self.kpi = kpi           # the angle as a multiple of pi, if known
+
+    def of_pi(k):
+        k = Fr(k)
+        tab = {Fr(1): (-1, 0), Fr(-1): (-1, 0), Fr(1, 2): (0, 1),
+               Fr(-1, 2): (0, -1), Fr(0): (1, 0)}
+        if k not in tab:
+            raise Undecided('angle %s pi' % k)
+        return Angle(tab[k][0], tab[k][1], k)
+
+    def num(v):
+        return PA.num_eval(to_rat(v), {})
+
+    class H(NAHooks):
+        def np_func(self, I, name):
+            if name == 'arccos':
+                def arccos(c):
+                    c = to_rat(c)
+                    return Angle(c, PA.root(1 - c * c, 2, signs))
+                return arccos
+            if name in ('cos', 'sin'):
+                def trig(a):
+                    if isinstance(a, NA):
+                        return NA(_np.frompyfunc(trig, 1, 1)(a.a), 'float64')
+                    if isinstance(a, Angle):
+                        return a.c if name == 'cos' else a.s
+                    if is_scalar(a) and to_rat(a).is_zero():
+                        return Rat.const(1 if name == 'cos' else 0)
+                    raise Undecided('%s of %r' % (name, a))
+                return trig
+            if name == 'sign':
+                def sign(v):
+                    x = num(v)
+                    return Rat.const((x > 1e-12) - (x < -1e-12))
+                return sign
+            if name == 'clip':
+                def clip(v, lo, hi, **k):
+                    x = num(v)
+                    if lo is not None and x < num(lo):
+                        return to_rat(lo)
+                    if hi is not None and x > num(hi):
+                        return to_rat(hi)
+                    return to_rat(v)
+                return clip
+            if name == 'pi':
+                return of_pi(1)
+            if name in ('eye', 'identity'):
+                def eye(n_, *a, **k):
+                    m = _np.empty((n_, n_), dtype=object)
+                    for i in range(n_):
+                        for j in range(n_):
+                            m[i, j] = Rat.const(int(i == j))
+                    return NA(m, 'float64')
+                return eye
+            return NAHooks.np_func(self, I, name)
+
+        def on_binop(self, interp, op, l, r):
+            if isinstance(l, Angle) or isinstance(r, Angle):
+                a, k = (l, r) if isinstance(l, Angle) else (r, l)
+                if not is_scalar(k) or not to_rat(k).is_const():
+                    raise Undecided('angle arithmetic with %r' % (k,))
+                k = to_rat(k).constant()
+                if a.kpi is not None and (op is ast.Mult or (
+                        op is ast.Div and isinstance(l, Angle) and k != 0)):
+                    return of_pi(a.kpi * k if op is ast.Mult else a.kpi / k)
+                if op is ast.Mult and k in (1, -1):
+                    return Angle(a.c, a.s * int(k))
+                if op is ast.Mult and k == 0:
+                    return Rat.const(0)
+                raise Undecided('angle arithmetic %r' % (op,))
+            return NAHooks.on_binop(self, interp, op, l, r)
+
+        def linalg_norm(self, I, v, ord=None, axis=None, keepdims=False,
+                        **k):
+            tot = Rat.const(0)
+            for x in na_of(v).a.ravel():
+                tot = tot + to_rat(x) * to_rat(x)
+            return PA.root(tot, 2, signs)
+
+        def on_decide(self, interp, cond, node):
+            if cond.rat is not None:
+                try:
+                    v = num(cond.rat)
+                except (KeyError, Undecided):
+                    return NotImplemented
+                k = cond.key.split(':')[0]
+                z = abs(v) < 1e-12
+                return {'eq0': z, 'Lt': v < 0 and not z, 'LtE': v < 0 or z,
+                        'Gt': v > 0 and not z, 'GtE': v > 0 or z}.get(
+                            k, NotImplemented)
+            return NotImplemented
+
+    class AI(NAInterp):
+        def unary(self, op, v, node=None):
+            if isinstance(v, Angle) and isinstance(op, ast.USub):
+                return Angle(v.c, -v.s, None if v.kpi is None else -v.kpi)
+            return NAInterp.unary(self, op, v, node)
+    from ..namodel import na_of
+    pairs2 = [((3, 4), (-4, 3), 'right angle, counter-clockwise'),
+              ((3, 4), (4, -3), 'right angle, clockwise'),
+              ((3, 4), (5, 12), 'counter-clockwise'),
+              ((3, 4), (12, 5), 'clockwise'),
+              ((3, 4), (-12, 5), 'obtuse, counter-clockwise'),
+              ((3, 4), (5, -12), 'obtuse, clockwise'),
+              ((1, 0), (3, -4), 'clockwise from the first axis'),
+              ((3, 4), (6, 8), 'equal directions'),
+              ((3, 4), (-3, -4), 'opposite')]
+    pairs3 = [((0, 3, 4), (0, 4, 3), 'in a coordinate plane'),
+              ((0, 4, 3), (0, 3, 4), 'in a coordinate plane, other way'),
+              ((2, 3, 6), (3, -6, 2), 'right angle'),
+              ((1, 2, 2), (2, 4, 4), 'equal directions'),
+              ((1, 2, 2), (-1, -2, -2), 'opposite')]
+    n = 0
+    for u, v, what in pairs2 + pairs3:
+        n += 1
+        tag = 'rotation_matrix_from_to[%r -> %r, %s]' % (u, v, what)
+        try:
+            I = AI(model, {}, H())
+            R = I.call_func(Func(fn, I.env_of(UTIL), None), [
+                NA(objarr([Rat.const(x) for x in u]), 'float64'),
+                NA(objarr([Rat.const(x) for x in v]), 'float64')], {})
+            d = len(u)
+            if not isinstance(R, NA) or R.a.shape != (d, d):
+                raise Undecided('result %r' % (R,))
+            M = [[to_rat(R.a[i, j]) for j in range(d)] for i in range(d)]
+            nu = Fr(sum(x * x for x in u))
+            nv = Fr(sum(x * x for x in v))
+            ru, rv = PA.root(Rat.const(nu), 2, signs), PA.root(
+                Rat.const(nv), 2, signs)
+            probs = []
+            for i in range(d):
+                img = sum((M[i][j] * Rat.const(u[j]) for j in range(d)),
+                          Rat.const(0)) / ru
+                if abs(num(img - Rat.const(v[i]) / rv)) > 1e-9:
+                    probs.append('R u/|u| has entry %d = %.6g, v/|v| has '
+                                 '%.6g' % (i, num(img),
+                                           num(Rat.const(v[i]) / rv)))
+                    break
+            for i in range(d):
+                for j in range(d):
+                    g = sum((M[k][i] * M[k][j] for k in range(d)),
+                            Rat.const(0))
+                    if abs(num(g) - (1.0 if i == j else 0.0)) > 1e-9:
+                        probs.append('R^T R is not the identity')
+                        break
+                if probs and probs[-1].startswith('R^T'):
+                    break
+            if d == 2:
+                det = M[0][0] * M[1][1] - M[0][1] * M[1][0]
+            else:
+                det = sum((M[0][i] * (M[1][(i + 1) % 3] * M[2][(i + 2) % 3]
+                                      - M[1][(i + 2) % 3] * M[2][(i + 1) % 3])
+                           for i in range(3)), Rat.const(0))
+            if abs(num(det) - 1.0) > 1e-9:
+                probs.append('det R = %.6g' % num(det))
+            if probs:
+                rep.violation('R9', tag, '; '.join(probs[:2]), UTIL,
+                              fn.lineno)
+            else:
+                rep.holds('R9', tag, 'a rotation that maps u/|u| to v/|v|')
+        except (Undecided, Fork) as e:
+            rep.undecided('R9', tag, str(e), UTIL, fn.lineno)
+        except PyRaise as e:
+            rep.violation('R9', tag, 'raises %s' % e.name, UTIL, fn.lineno)
+    rep.floor('R9', 'rotation_matrix_from_to evaluations', n, 12)
 
 
 def _det_axes(rep, model):
